@@ -33,6 +33,9 @@ def run(ck, ctx):
                      "address map they were given / derived from the configuration - they neither read the (shared, later changing) hash ring nor "
                      "remove entries from the map: a configured peer that joins the ring afterwards owns keys, and a router that pruned its "
                      "address would never send it their updates")
+    ck.rule("R19.9", "what was queued for an owner is what is handed to the transport: GossipState::drain_outbound returns the outbound queue itself "
+                     "(mem::take / drain into a Vec) - it does not merge, de-duplicate, reorder or trim the queued messages or their delta lists; the "
+                     "routing decision was taken when the message was queued, and an edit here can empty or drop a frame an owner is waiting for")
     ck.rule("R19.8", "the configured replication factor is what lookups use: HashRing.replication_factor is stored by the constructor and by nothing "
                      "else (no clamp to the momentary cluster size on removal): the owner count is min(RF, members) of the *current* membership, "
                      "so a ring that shrank below RF and regrew answers like a fresh ring with the same members")
@@ -43,6 +46,7 @@ def run(ck, ctx):
         _rules(ck, prog, cfg)
         _r197(ck, prog, cfg)
         _r198(ck, prog, cfg)
+        _r199(ck, prog, cfg)
 
 
 def _is_field(fn, operand, name):
@@ -336,3 +340,27 @@ def _r198(ck, prog, cfg):
             if st["rv"]["k"] == "agg" and str(st["rv"].get("n", "")) == RING:
                 n += 1
     ck.check(n >= 1, "R19.8", "constructed-with-rf" + _tag(cfg), "no HashRing constructor found", None, detail="%d constructor aggregate(s); no later store" % n)
+
+
+def _r199(ck, prog, cfg):
+    fs = [f for f in prog.lib_fns() if f.id == "replication::gossip::GossipState::drain_outbound"]
+    if not fs:
+        ck.anchor_lost("R19.9", "GossipState::drain_outbound not found")
+        return
+    f = fs[0]
+    bad = []
+    for g in prog.with_children(f):
+        for b, t in g.calls():
+            c = callee(t) or ""
+            if re.search(r"Vec::<.*>::(dedup|dedup_by|dedup_by_key|retain|retain_mut|truncate|append|sort\w*|swap_remove|remove|insert|split_off|drain)(::<.*>)?$", c) or \
+                    re.search(r"Iterator>?::(filter|filter_map|take|skip|step_by|rev|take_while|skip_while|fold|reduce|zip)(::<.*>)?$", c):
+                bad.append((c.rsplit("::", 1)[-1].split("<")[0], t["ln"]))
+    s_ = None
+    for b, i, st in f.stmts():
+        pass
+    ret = [src_of_operand(f, {"cp": {"l": 0}})] if False else []
+    takes = [t for _, t in f.calls() if is_callee(t, r"^std::mem::take(::<.*>)?$", r"VecDeque::<.*>::drain", r"Vec::<.*>::drain")]
+    ck.check(not bad and bool(takes), "R19.9", "drain_outbound:hands-over-the-queue" + _tag(cfg),
+             "drain_outbound edits the queued messages before handing them over (%s): a frame queued for an owner can come out merged away, emptied or "
+             "missing" % (bad[:3] or "no mem::take/drain of the queue found"), f.where(bad[0][1]) if bad else f.where(),
+             detail="mem::take(&mut self.outbound_queue)")
